@@ -431,7 +431,42 @@ fn command_api(dep: &str) {
     let start = src.find("pub fn is_read_only").expect("command.rs: pub fn is_read_only not found");
     let rest = &src[start + 10..];
     let end = rest.find("pub fn ").unwrap_or(rest.len());
-    let body = &rest[..end];
+    // comments (`// …` to the end of the line, `/* … */`) say nothing about the classification
+    let body_owned: String = {
+        let mut out = String::new();
+        let mut in_block = false;
+        for line in rest[..end].lines() {
+            let mut l = line.to_string();
+            loop {
+                if in_block {
+                    match l.find("*/") {
+                        Some(i) => {
+                            l = l[i + 2..].to_string();
+                            in_block = false;
+                        }
+                        None => {
+                            l.clear();
+                            break;
+                        }
+                    }
+                } else if let Some(i) = l.find("/*") {
+                    let (a, b) = l.split_at(i);
+                    out.push_str(a);
+                    l = b[2..].to_string();
+                    in_block = true;
+                } else {
+                    break;
+                }
+            }
+            if let Some(i) = l.find("//") {
+                l.truncate(i);
+            }
+            out.push_str(&l);
+            out.push('\n');
+        }
+        out
+    };
+    let body = body_owned.as_str();
     let mut ro: Vec<String> = Vec::new();
     // plain = nothing but `Command::X` / `Command::X(_, …)` / `Command::X { .. }` alternatives of one matches!
     let mut plain = body.contains("matches!(");
